@@ -6,7 +6,7 @@
    Part 3 (last theorem): the linear-time clause, refuted for AMF0.
    ------------------------------------------------------------------------------------------ *)
 
-From Verif Require Proofs.Amf0 Proofs.RtmpChunk Proofs.RtmpPacket Proofs.FlvTotal Proofs.FlvPack Proofs.Aac Proofs.Avc Proofs.JsonPlusTotal Proofs.JoseFixed Proofs.JoseCipher Proofs.JoseWrap.
+From Verif Require Proofs.Amf0 Proofs.RtmpChunk Proofs.RtmpPacket Proofs.FlvTotal Proofs.FlvPack Proofs.Aac Proofs.Avc Proofs.JsonPlusTotal Proofs.JoseFixed Proofs.JoseCipher Proofs.JoseWrap Proofs.Amf0Cost.
 
 (* AMF0: Discovery + UnmarshalBinary of every value type, every nesting, every byte string (any fuel) *)
 Theorem c07_amf0_dec_total :
@@ -132,3 +132,8 @@ Theorem c07_flv_tags_return :
     forall (fuel : nat) (s : Flv.stream) (acc : list Flv.tag) (e : N),
     (length (fst (Flv.flat s)) < fuel)%nat -> Flv.read_tags fuel s acc <> Err e.
 Proof. exact Verif.Proofs.FlvTotal.read_tags_fuel. Qed.
+
+(* LINEAR TIME IS REFUTED for AMF0 (known finding amf0-quadratic-nesting): for every slope k there is a well-formed byte string whose decoding cost -- method invocations, counting the Size() walk of the whole subtree that objectBase.unmarshal repeats after every decoded child -- exceeds k times its length (witness family 03 (00 01 61 03)^d (00 00 09)^(d+1), cost (d+1)^2 on 7d+4 bytes) *)
+Theorem c07_amf0_cost_refuted :
+    forall k : N, exists bs : bytes, wf_bytes bs /\ (Amf0Cost.cost_amf0 bs > k * lenN bs)%N.
+Proof. exact Verif.Proofs.Amf0Cost.amf0_cost_quadratic_refuted. Qed.
